@@ -115,7 +115,27 @@ fn case_json(c: &Case, alg: &str) -> Value {
 }
 
 /// check the four algorithms on one instance; returns (algorithm, message)
+/// long-lived weight tables of one sweep: re-weighted in place with set_weight before every case
+/// instead of being created anew (a count or bound remembered on the nodes under a table's identity
+/// goes stale exactly then: query, change a weight in place, query the same diagram again)
+pub struct LiveTables {
+    real: WmcParams<RealSemiring>,
+    eu: WmcParams<ExpectedUtility>,
+    /// what the harness has written so far (label -> weights)
+    shadow: Vec<Option<(f64, f64)>>,
+}
+
+impl LiveTables {
+    pub fn new() -> LiveTables {
+        LiveTables { real: WmcParams::default(), eu: WmcParams::default(), shadow: Vec::new() }
+    }
+}
+
 fn check_case<'a>(b: &'a AllBuilder<'a>, c: &Case, evals: &mut u64) -> Option<(String, String)> {
+    check_case_live(b, c, evals, None)
+}
+
+fn check_case_live<'a>(b: &'a AllBuilder<'a>, c: &Case, evals: &mut u64, live: Option<&mut LiveTables>) -> Option<(String, String)> {
     let n = c.n;
     let p = build_bdd(b, c.f, n);
     if bdd_tt(p, n) != c.f {
@@ -166,7 +186,7 @@ fn check_case<'a>(b: &'a AllBuilder<'a>, c: &Case, evals: &mut u64) -> Option<(S
             best = val;
         }
     }
-    let params: WmcParams<RealSemiring> = WmcParams::new(w.iter().enumerate().map(|(v, &(l, h))| (VarLabel::new(v as u64), (RealSemiring(l), RealSemiring(h)))).collect::<HashMap<_, _>>());
+    let fresh_params: WmcParams<RealSemiring> = WmcParams::new(w.iter().enumerate().map(|(v, &(l, h))| (VarLabel::new(v as u64), (RealSemiring(l), RealSemiring(h)))).collect::<HashMap<_, _>>());
     // ---- expected utility: meu and bb<ExpectedUtility> ----
     // utilities only on variables ordered after every decision variable
     let last_decision_level = c.q.iter().map(|&v| levels[v]).max();
@@ -212,9 +232,29 @@ fn check_case<'a>(b: &'a AllBuilder<'a>, c: &Case, evals: &mut u64) -> Option<(S
             best_eu = val.1;
         }
     }
-    let params_eu: WmcParams<ExpectedUtility> = WmcParams::new(
+    let fresh_params_eu: WmcParams<ExpectedUtility> = WmcParams::new(
         we.iter().enumerate().map(|(v, &(l, h))| (VarLabel::new(v as u64), (ExpectedUtility(l.0, l.1), ExpectedUtility(h.0, h.1)))).collect::<HashMap<_, _>>(),
     );
+    let (params, params_eu): (&WmcParams<RealSemiring>, &WmcParams<ExpectedUtility>) = match live {
+        Some(lt) => {
+            // only the entries that differ are written (the usual way to update a table)
+            for (v, &(l, h)) in w.iter().enumerate() {
+                let lbl = VarLabel::new(v as u64);
+                if lt.shadow.len() <= v {
+                    lt.shadow.resize(v + 1, None);
+                }
+                if lt.shadow[v] != Some((l, h)) {
+                    lt.real.set_weight(lbl, RealSemiring(l), RealSemiring(h));
+                    lt.shadow[v] = Some((l, h));
+                }
+            }
+            for (v, &(l, h)) in we.iter().enumerate() {
+                lt.eu.set_weight(VarLabel::new(v as u64), ExpectedUtility(l.0, l.1), ExpectedUtility(h.0, h.1));
+            }
+            (&lt.real, &lt.eu)
+        }
+        None => (&fresh_params, &fresh_params_eu),
+    };
     // the four algorithms run in an order that rotates with the case, so that the last query on
     // one diagram and the first query on the next (which shares nodes with it inside the
     // long-lived builder) are of the same kind as often as of different kinds
@@ -229,9 +269,9 @@ fn check_case<'a>(b: &'a AllBuilder<'a>, c: &Case, evals: &mut u64) -> Option<(S
             *evals += 1;
             let r = guarded(|| {
                 if alg == "marginal_map" {
-                    p.marginal_map(&qvars, n, &params)
+                    p.marginal_map(&qvars, n, params)
                 } else {
-                    let (v, m) = p.bb(&qvars, n, &params);
+                    let (v, m) = p.bb(&qvars, n, params);
                     (v.0, m)
                 }
             });
@@ -256,7 +296,7 @@ fn check_case<'a>(b: &'a AllBuilder<'a>, c: &Case, evals: &mut u64) -> Option<(S
             }
         } else {
             *evals += 1;
-            let r = guarded(|| if alg == "meu" { p.meu(&qvars, n, &params_eu) } else { p.bb(&qvars, n, &params_eu) });
+            let r = guarded(|| if alg == "meu" { p.meu(&qvars, n, params_eu) } else { p.bb(&qvars, n, params_eu) });
             match r {
                 Err(e) => return Some((alg.into(), format!("panicked: {}", e))),
                 Ok((val, m)) => {
@@ -289,19 +329,29 @@ fn run_order(n: usize, order: &[usize], ctx: &Ctx, fstep: usize, wstep: usize) -
     let qs = query_lists(n);
     let nw = 4usize.pow(n as u32);
     let mut f = 0u64;
+    let mut live = LiveTables::new();
+    let odig: usize = order.iter().enumerate().map(|(i, v)| i * v).sum();
     while f < total {
+        // every second function (every function in thorough, in both ways) is queried with the sweep's
+        // long-lived tables, re-weighted in place between the cases
+        let modes: Vec<bool> = if ctx.tier == Tier::Thorough { vec![false, true] } else { vec![((f / fstep as u64) as usize + odig) % 2 == 0] };
+        for use_live in modes {
         for q in qs.iter() {
             let mut wc = (f as usize) % wstep;
             while wc < nw {
                 let c = Case { n, order: order.to_vec(), f, q: q.clone(), wcode: wc };
                 let mut ev = 0;
                 rep.transitions += 1;
-                if let Some((alg, what)) = check_case(&b, &c, &mut ev) {
+                if use_live {
+                    rep.add_extra("cases_with_tables_reweighted_in_place", 1);
+                }
+                if let Some((alg, what)) = check_case_live(&b, &c, &mut ev, if use_live && !crate::core::disabled("live") { Some(&mut live) } else { None }) {
                     rep.violation(format!("optimum:{}", alg), format!("{} on f={:#x} order {:?} query {:?}: {}", alg, f, order, q, what), case_json(&c, &alg));
                 }
                 rep.evaluations += ev;
                 wc += wstep;
             }
+        }
         }
         rep.states += 1;
         if rep.n_violations > 24 {
